@@ -717,4 +717,74 @@ theorem cri_mono (s : IStream) (e : Sev) :
       right; simp [checkRemainingInput, he', hb', greater_inputError_err]
 
 
+/-! ### REAL / NUMBER -/
+theorem extractFloatText_good (l : List Byte) (c : Byte) (t : List Byte) (hc : isSpace c = false) :
+    IStream.extractFloatText { left := l, right := c :: t, eof := false, fail := false, bad := false, skipws := true } =
+      (some (scanFloat l (c :: t)).1,
+       { left := (scanFloat l (c :: t)).2.1, right := (scanFloat l (c :: t)).2.2,
+         eof := (scanFloat l (c :: t)).2.2.isEmpty, fail := false, bad := false, skipws := true }) := by
+  simp [IStream.extractFloatText, IStream.sentry, IStream.good, dropSpaces_nonspace _ _ _ hc]
+
+/-- what an unset REAL/NUMBER attribute without an error can come from -/
+def UnsetOrigin {F} (ops : FloatOps F) (nullable : Bool) (input : List Byte) : Prop :=
+  (nullable = true ∧ ∃ sp1 c t, input = sp1 ++ c :: t ∧ sp1.all isSpace = true ∧ (c = 36 ∨ c = 44 ∨ c = 41)) ∨
+  input.all isSpace = true ∨
+  (∃ text v, ops.conv text = .ok v ∧ ops.isRealNull v = true)
+
+theorem takeDigits_append (r : List Byte) : (takeDigits r).1 ++ (takeDigits r).2 = r := by
+  induction r with
+  | nil => rfl
+  | cons c t ih =>
+    unfold takeDigits
+    by_cases h : isDigit c = true
+    · simp [h, ih]
+    · have h' : isDigit c = false := by simpa using h
+      simp [h']
+
+theorem optSign_append (r : List Byte) : (optSign r).1 ++ (optSign r).2 = r := by
+  unfold optSign; split <;> simp
+
+theorem optDot_append (r : List Byte) : (optDot r).1 ++ (optDot r).2 = r := by
+  unfold optDot; split <;> simp
+
+theorem expPart_append (r : List Byte) : (expPart r).1 ++ (expPart r).2.1 = r := by
+  unfold expPart
+  split
+  · rename_i c t
+    by_cases h : (c == 101 || c == 69) = true
+    · simp only [h, if_true, realDigits]
+      have h1 := takeDigits_append (optSign t).2
+      have h2 := optSign_append t
+      simp only [List.cons_append, List.append_assoc, h1, h2]
+    · have h' : (c == 101 || c == 69) = false := by simpa using h
+      simp [h']
+  · simp
+
+/-- every character `ReadReal` takes from the stream goes into its buffer, in order -/
+theorem realCollect_append (r : List Byte) : (realCollect r).1 ++ (realCollect r).2.1 = r := by
+  simp only [realCollect, realDigits, List.append_assoc]
+  rw [expPart_append, takeDigits_append, optDot_append, takeDigits_append, optSign_append]
+
+/-- garbage in front of the delimiter is always reported -/
+theorem cri_garbage (l : List Byte) (c : Byte) (t : List Byte) (f sk : Bool) (e : Sev)
+    (hc : isSpace c = false) (hd : isDelim attrDelims c = false) :
+    ¬ NoErr (checkRemainingInput (some attrDelims) { left := l, right := c :: t, eof := false, fail := f, bad := false, skipws := sk } e).2 := by
+  intro hne
+  rcases (cri_char _ e rfl).2 hne with ⟨heof, _⟩ | ⟨_, sp, hsp, hr, _, hat⟩
+  · simp at heof
+  · simp only at hr
+    cases sp with
+    | nil =>
+      simp only [List.nil_append] at hr
+      rcases hat with hnil | ⟨d, u, hdu, hdd⟩
+      · rw [hnil] at hr; cases hr
+      · rw [hdu] at hr
+        simp only [List.cons.injEq] at hr
+        rw [← hr.1] at hdd; rw [hdd] at hd; cases hd
+    | cons a sp' =>
+      simp only [List.cons_append, List.cons.injEq] at hr
+      have : isSpace a = true := by simp at hsp; exact hsp.1
+      rw [← hr.1, hc] at this; cases this
+
+
 end StepModel.P21.Lemmas
